@@ -60,7 +60,7 @@ class Meta:
         self.sdef = {s['name']: s for s in d['structs']}
         self.edef = {e['name']: e for e in d['enums']}
         self.tops = [i for i in d['inst'] if i in self.sdef]
-        self.enum_tops = [i for i in d['inst'] if i in self.edef]
+        self.enum_tops = [i for i in d['inst'] if i in self.edef and '::' not in i]   # nested: via its struct
         self.leafinfo = {}
         self.nodes = {}
         for t in self.tops:
@@ -222,7 +222,8 @@ def rnd_dur_text(rng, zero_ok=False):
 DUR_FIXED = ['1min30s', '500ms', '1.5h', '0s', '0ms', '1min0s', '1e30h', 'inf', 'nan', '0', '1min 12s 13ms',
              '1min+12s+13ms', '1.5min+12.5s+13ms', '501µs', '500us', '1500us', '2500us', '1min    ', '5',
              '1h1min1s1ms1us1ns', '-1.5s', '90min', '30min', '150min', '0.5ns', '1.5ns', '2.5ns', '1e-10s',
-             '9e18ns', '1e19ns', '2562047h', '-inf', '1e400s', '10s', '100ms', '0.5s', '00', '1h0min', '2s0ms']
+             '9e18ns', '1e19ns', '2562047h', '-inf', '1e400s', '10s', '100ms', '0.5s', '00', '1h0min', '2s0ms',
+             '9e18ns9e18ns', '-9e18ns-9e18ns', '9e18ns-9e18ns', '2562047h48min', '-9.3e18ns', '0.0s', '000.5s', '0h0min0s']
 DUR_BAD = ['5 parsecs', '5parsecs', '1min5parsecs', 'abc', '5m', '5sec', '5 s', 's', 'ms5', '1min30x', '5e', '--5s',
            '1,5s', '5S', '5Ms']
 
